@@ -55,6 +55,8 @@ type c53Rule struct {
 	CP     int64  `json:"check_period_s"`
 	SP     int64  `json:"stay_period_s"`
 	T      int32  `json:"threshold"`
+	Dict1  int    `json:"dict_size"`              // AccessDictSize = PrisonDictSize at first load
+	Dict2  int    `json:"dict_size_after_reload"` // ... in the rule file reloaded mid-batch (same rule names)
 }
 
 type c53Key struct {
@@ -67,6 +69,17 @@ type c53Key struct {
 type c53Batch struct {
 	Groups [][]c53Rule `json:"groups"`
 	Keys   []c53Key    `json:"keys"`
+	// ReloadAtMs: point of the timeline where prison.data is hot-reloaded through the
+	// module's reload handler with unchanged rules but other LRU sizes (0: no reload)
+	ReloadAtMs int64 `json:"reload_at_ms"`
+}
+
+// c53Remote: client address of key id - every second key is an IPv6 client.
+func c53Remote(batch, id int) string {
+	if id%2 == 1 {
+		return fmt.Sprintf("2001:db8:%x::%x", batch&0xffff, id+1)
+	}
+	return fmt.Sprintf("10.%d.%d.%d", 1+(batch%200), id>>8, id&255)
 }
 
 // ---- model
@@ -277,17 +290,27 @@ func c53GenBatch(rt *rapid.T, batchNo int) *c53Batch {
 				Sign:   rapid.SampledFrom([]string{"header", "cookie", "clientip", "query", "path", "url"}).Draw(rt, "sign"),
 				CP:     int64(rapid.IntRange(1, 2).Draw(rt, "cp")),
 				SP:     int64(rapid.SampledFrom([]int{1, 1, 1, 2, 2, 2, 0}).Draw(rt, "sp")),
-				T:      int32(rapid.SampledFrom([]int{1, 2, 3, 4, 5, 1, 2, 3, 0}).Draw(rt, "t"))}
+				T:      int32(rapid.SampledFrom([]int{1, 2, 3, 4, 5, 1, 2, 3, 0}).Draw(rt, "t")),
+				// LRU sizes before / after the mid-batch reload (always far above the number of keys)
+				Dict1: rapid.SampledFrom([]int{4000, 1000, 8000}).Draw(rt, "dict1"),
+				Dict2: rapid.SampledFrom([]int{1000, 4000, 8000}).Draw(rt, "dict2")}
 			if nr == 2 && j == 0 && rapid.Bool().Draw(rt, "first-continues") {
 				r.Action = "REQ_HEADER_SET"
+			}
+			if g == 0 && j == 0 {
+				r.Sign = "clientip" // every batch has a rule keyed by client address (IPv4 and IPv6 clients)
 			}
 			rules = append(rules, r)
 		}
 		b.Groups = append(b.Groups, rules)
 	}
+	b.ReloadAtMs = int64(rapid.IntRange(1500, 3500).Draw(rt, "reload-at"))
 	nk := rapid.IntRange(ev.N(220, 150), ev.N(300, 300)).Draw(rt, "nkeys")
 	for k := 0; k < nk; k++ {
 		g := rapid.IntRange(0, ng-1).Draw(rt, "group")
+		if k < 24 {
+			g = 0 // enough keys on the client-address rule
+		}
 		pat, offs := c53Plan(rt, b.Groups[g], k)
 		b.Keys = append(b.Keys, c53Key{ID: k, Group: g, Pattern: pat, Offsets: offs})
 	}
@@ -313,7 +336,9 @@ func c53Setup() (*modHost, error) {
 
 func c53HeaderName(j int) string { return fmt.Sprintf("X-Bfe-Prison-%d", j) }
 
-func c53RuleFile(b *c53Batch) string {
+// c53RuleFile renders prison.data; phase 2 is the mid-batch reload: same products,
+// same rule names and parameters, only the LRU sizes differ.
+func c53RuleFile(b *c53Batch, phase int) string {
 	cfg := map[string]any{}
 	for g, rules := range b.Groups {
 		var rs []map[string]any
@@ -337,8 +362,15 @@ func c53RuleFile(b *c53Batch) string {
 			if r.Action == "REQ_HEADER_SET" {
 				act["Params"] = []string{c53HeaderName(j), "jailed"}
 			}
+			size := r.Dict1
+			if phase == 2 {
+				size = r.Dict2
+			}
+			if size == 0 {
+				size = 4000
+			}
 			rs = append(rs, map[string]any{"Name": r.Name, "Cond": "default_t()", "AccessSignConf": sign, "Action": act,
-				"CheckPeriod": r.CP, "StayPeriod": r.SP, "Threshold": r.T, "AccessDictSize": 4000, "PrisonDictSize": 4000})
+				"CheckPeriod": r.CP, "StayPeriod": r.SP, "Threshold": r.T, "AccessDictSize": size, "PrisonDictSize": size})
 		}
 		cfg[fmt.Sprintf("g%d", g)] = rs
 	}
@@ -361,7 +393,7 @@ func c53Run(tb ev.TB, rec *ev.Rec, batch *c53Batch) {
 	if err != nil {
 		tb.Fatalf("harness: %v", err)
 	}
-	if err := h.reload(c53RuleFile(batch)); err != nil {
+	if err := h.reload(c53RuleFile(batch, 1)); err != nil {
 		if _, ok := err.(harnessErr); ok || strings.HasPrefix(err.Error(), "harness:") {
 			tb.Fatalf("harness: %v", err)
 		}
@@ -375,7 +407,7 @@ func c53Run(tb ev.TB, rec *ev.Rec, batch *c53Batch) {
 		for si, o := range k.Offsets {
 			spec := &reqSpec{Method: "GET", Target: "/" + id + "?id=" + id, Host: "example.org",
 				Headers: []hdr{{"X-Key", id}, {"Cookie", "UID=" + id}},
-				Remote:  fmt.Sprintf("10.%d.%d.%d", 1+(c53Count%200), k.ID>>8, k.ID&255)}
+				Remote:  c53Remote(c53Count, k.ID)}
 			req, err := buildReq(spec, fmt.Sprintf("g%d", k.Group))
 			if err != nil {
 				tb.Fatalf("harness: %v", err)
@@ -384,13 +416,24 @@ func c53Run(tb ev.TB, rec *ev.Rec, batch *c53Batch) {
 		}
 	}
 	sort.SliceStable(evs, func(i, j int) bool { return evs[i].planNs < evs[j].planNs })
+	reloadFile := c53RuleFile(batch, 2)
+	var reloadErr error
 
 	// one scheduler goroutine issues all requests of the batch on the shared timeline
 	done := make(chan struct{})
 	go func() {
 		defer close(done)
 		t0 := time.Now().Add(20 * time.Millisecond)
+		reloaded := batch.ReloadAtMs == 0
 		for _, e := range evs {
+			if !reloaded && e.planNs >= batch.ReloadAtMs*int64(time.Millisecond) {
+				// operator hot-reloads the rule file: same rules and names, other LRU sizes
+				reloaded = true
+				if d := time.Until(t0.Add(time.Duration(batch.ReloadAtMs) * time.Millisecond)); d > 0 {
+					time.Sleep(d)
+				}
+				reloadErr = h.reload(reloadFile)
+			}
 			if d := time.Until(t0.Add(time.Duration(e.planNs))); d > 0 {
 				time.Sleep(d)
 			}
@@ -404,6 +447,13 @@ func c53Run(tb ev.TB, rec *ev.Rec, batch *c53Batch) {
 	case <-time.After(90 * time.Second):
 		// machine overloaded: inconclusive, never a violation
 		rec.Excluded("batch-watchdog")
+		return
+	}
+	if reloadErr != nil {
+		if _, ok := reloadErr.(harnessErr); ok || strings.HasPrefix(reloadErr.Error(), "harness:") {
+			tb.Fatalf("harness: %v", reloadErr)
+		}
+		rec.Fail(tb, "load/valid-rule-rejected", batch.Groups, "reload of the same prison rules with other dict sizes rejected: %v", reloadErr)
 		return
 	}
 	var t0 int64
@@ -422,7 +472,8 @@ func c53Run(tb ev.TB, rec *ev.Rec, batch *c53Batch) {
 		perKey[e.key] = append(perKey[e.key], e)
 	}
 	for ki, k := range batch.Keys {
-		c53EvalKey(tb, rec, batch.Groups[k.Group], &batch.Keys[ki], perKey[ki], t0)
+		c53EvalKey(tb, rec, batch.Groups[k.Group], &batch.Keys[ki], perKey[ki], t0,
+			fmt.Sprintf("client %s; prison.data reloaded (same rules, other dict sizes) at %d ms of the timeline", c53Remote(c53Count, k.ID), batch.ReloadAtMs))
 	}
 }
 
@@ -435,9 +486,14 @@ type c53Obs struct {
 	Planned int64   `json:"planned_ms"`
 }
 
-func c53EvalKey(tb ev.TB, rec *ev.Rec, rules []c53Rule, k *c53Key, evs []*c53Event, t0 int64) {
+func c53EvalKey(tb ev.TB, rec *ev.Rec, rules []c53Rule, k *c53Key, evs []*c53Event, t0 int64, info string) {
 	fpb, _ := json.Marshal(map[string]any{"rules": rules, "offsets": k.Offsets})
 	classes := []string{"pattern:" + k.Pattern, fmt.Sprintf("rules:%d", len(rules))}
+	if k.ID%2 == 1 {
+		classes = append(classes, "client:ipv6")
+	} else {
+		classes = append(classes, "client:ipv4")
+	}
 	for _, r := range rules {
 		classes = append(classes, fmt.Sprintf("T:%d", r.T), "action:"+r.Action, "sign:"+r.Sign)
 	}
@@ -537,9 +593,9 @@ func c53EvalKey(tb ev.TB, rec *ev.Rec, rules []c53Rule, k *c53Key, evs []*c53Eve
 		case !obsDenied && modelDenied:
 			key = "released-before-jail-end"
 		}
-		w := map[string]any{"rules": rules, "key": k, "history": hist}
-		rec.Fail(tb, key, w, "key %d (pattern %s) request #%d at %.1f ms: bfe ret=%d hdr=%v, model %q wants ret=%d hdr=%v; rules %+v; history %+v",
-			k.ID, k.Pattern, e.seq, float64(e.b-t0)/1e6, e.ret, e.hdrs, model, wantRet, wantHdr, rules, hist)
+		w := map[string]any{"rules": rules, "key": k, "history": hist, "info": info}
+		rec.Fail(tb, key, w, "key %d (pattern %s) request #%d at %.1f ms: bfe ret=%d hdr=%v, model %q wants ret=%d hdr=%v; %s; rules %+v; history %+v",
+			k.ID, k.Pattern, e.seq, float64(e.b-t0)/1e6, e.ret, e.hdrs, model, wantRet, wantHdr, info, rules, hist)
 		return
 	}
 	rec.Add("requests_evaluated", int64(evaluated))
